@@ -86,7 +86,7 @@ def run_case(unit, cs, idx, build, params):
             if t2.strategy.bankrupt:
                 V = t2.strategy.data["value"].to_numpy(dtype=float)
                 neg = np.where(V < 0)[0]
-                if len(neg) and i > neg[0]:
+                if len(neg) and i >= neg[0]:     # identical strictly before the stand-alone run's bankruptcy date
                     mech = "k8_bankrupt_shadow_keeps_trading"
             return common.result(common.VIOL, sig=sig, nt=True, cnt=cnt, mech=mech, sample=sample,
                                  witness=dict(w, first_diff=str(a.index[i]), nested=float(av[i]), standalone=float(bv[i]), standalone_bankrupt=bool(t2.strategy.bankrupt)))
